@@ -351,9 +351,74 @@ def oracle_C02(lhs, o, t, om):
     if container_over(o.get("w")): return "a container reports len > capacity"
     return None
 
+# ---- the plain C layout rule on descriptors (third, independent implementation: oracle for field addresses) -----------
+def _tok(s):
+    return s.replace("(", " ( ").replace(")", " ) ").split()
+def _parse(toks, i):
+    if toks[i] == "(":
+        lst = []; i += 1
+        while toks[i] != ")":
+            x, i = _parse(toks, i); lst.append(x)
+        return lst, i + 1
+    return toks[i], i + 1
+def parse_desc(d):
+    return _parse(_tok(d), 0)[0]
+def _len(l):   # l2a2l -> (size, align)
+    m = re.match(r"l(\d+)a(\d+)[lb]$", l); return int(m.group(1)), int(m.group(2))
+def c_align(t):
+    if isinstance(t, str):
+        if t == "bool": return 1
+        return int(re.match(r"p(\d+)a(\d+)$", t).group(2))
+    h = t[0]
+    if h == "arr": return c_align(t[1])
+    if h in ("ss", "us"): return max([c_align(x) for x in t[1:]] or [1])
+    if h == "ce": return _len(t[1])[1]
+    if h in ("se", "ue"): return max([_len(t[1])[1]] + [c_align(x) for v in t[2:] for x in v[1:]])
+    if h in ("vec", "flex"): return max(c_align(t[1]), _len(t[2])[1])
+    if h == "str": return _len(t[1])[1]
+    raise ValueError(h)
+def c_sized(t):
+    return isinstance(t, str) or t[0] in ("arr", "ss", "ce", "se")
+def c_ceil(x, m): return (x + m - 1) // m * m
+def c_offsets(fields):
+    pos, out = 0, []
+    for f in fields:
+        pos = c_ceil(pos, c_align(f)); out.append(pos)
+        if c_sized(f): pos += c_size(f)
+    return out, pos
+def c_size(t):
+    if isinstance(t, str):
+        return 1 if t == "bool" else int(re.match(r"p(\d+)a(\d+)$", t).group(1))
+    h = t[0]
+    if h == "arr": return c_size(t[1]) * int(t[2])
+    if h == "ss":
+        _, end = c_offsets(t[1:]); return c_ceil(end, c_align(t))
+    if h == "ce": return _len(t[1])[0]
+    if h == "se":
+        al = c_align(t); doff = c_ceil(_len(t[1])[0], al)
+        mx = max([c_ceil(c_offsets(v[1:])[1], max([c_align(x) for x in v[1:]] or [1])) for v in t[2:]] or [0])
+        return c_ceil(doff + mx, al)
+    raise ValueError(h)
+_DESC_CACHE = {}
+def expected_offsets(desc, w):
+    """C offsets of the top-level fields (of the variant named in the walk `w`), None for types without fields"""
+    t = _DESC_CACHE.get(desc)
+    if t is None:
+        t = _DESC_CACHE[desc] = parse_desc(desc)
+    if isinstance(t, str): return None
+    if t[0] in ("ss", "us"): return c_offsets(t[1:])[0]
+    if t[0] == "ce": return []
+    if t[0] in ("se", "ue"):
+        m = re.match(r"<(\d+)", w or "")
+        if not m: return None
+        v = t[2 + int(m.group(1))]
+        doff = c_ceil(_len(t[1])[0], c_align(t))
+        return [doff + o for o in c_offsets(v[1:])[0]]
+    return None
+
 def proj_C04(lhs, o, t):
     if o["cls"] == "ok":
-        return (o.get("v"), o.get("s"))
+        return (o.get("v"), o.get("s"), o.get("off"))
     return ()
 def oracle_C04(lhs, o, t):
     if o["cls"] != "ok":
@@ -362,6 +427,11 @@ def oracle_C04(lhs, o, t):
     if int(o["s"]) > n: return f"size_of_val {o['s']} exceeds the {n}-byte slice it was mapped from"
     if int(o["v"]) != int(o["s"]): return f"as_bytes() covers {o['v']} bytes but size_of_val is {o['s']}"
     if int(o["s"]) % t["align"] != 0: return f"size_of_val {o['s']} is not a multiple of ALIGN {t['align']}"
+    if "off" in o:
+        exp = expected_offsets(t["desc"], o.get("w"))
+        got = [] if o["off"] == "-" else [int(x) for x in o["off"].split(",")]
+        if exp is not None and exp != got: return f"field addresses {got} (relative to the value) differ from the C layout rule {exp}"
+        if t["align"] != c_align(parse_desc(t["desc"])): return f"ALIGN {t['align']} differs from the C rule {c_align(parse_desc(t['desc']))}"
     return None
 
 def proj_C05(lhs, o, t):
